@@ -59,6 +59,12 @@ Shrink(d) ==
          << [d EXCEPT !.dirs = <<>>], Ext([BaseDef("OBJECT", d.name) EXCEPT !.dirs = d.dirs]) >>
     [] OTHER -> <<>>
 
+\* move the interfaces of an object into an extend block (the block adds no member, only the relation)
+ShrinkI(d) ==
+  IF d.kind = "OBJECT" /\ d.ifaces # <<>>
+  THEN << [d EXCEPT !.ifaces = <<>>], Ext([BaseDef("OBJECT", d.name) EXCEPT !.ifaces = d.ifaces]) >>
+  ELSE <<>>
+
 VARIABLES phase, setid, base, hist
 avars == <<phase, setid, base, hist>>
 
@@ -77,7 +83,9 @@ AInit == phase = "set" /\ setid \in SetIds /\ base = <<>> /\ hist = <<>>
 Permute ==
   /\ phase = "set" /\ phase' = "perm"
   /\ \E variant \in {Sets[setid]} \cup { SubSeq(Sets[setid], 1, k - 1) \o Shrink(Sets[setid][k]) \o SubSeq(Sets[setid], k + 1, Len(Sets[setid]))
-                                         : k \in {k \in DOMAIN Sets[setid] : Shrink(Sets[setid][k]) # <<>>} } :
+                                         : k \in {k \in DOMAIN Sets[setid] : Shrink(Sets[setid][k]) # <<>>} }
+                                  \cup { SubSeq(Sets[setid], 1, k - 1) \o ShrinkI(Sets[setid][k]) \o SubSeq(Sets[setid], k + 1, Len(Sets[setid]))
+                                         : k \in {k \in DOMAIN Sets[setid] : ShrinkI(Sets[setid][k]) # <<>>} } :
        \E p \in Permutations(DOMAIN variant) : base' = [i \in DOMAIN variant |-> variant[p[i]]]
   /\ UNCHANGED <<setid, hist>>
 \* step 2: cut into loads and run the specification
